@@ -64,6 +64,11 @@ def resolveAbs (b r : String) : String :=
   let wr := ofStr r
   if IriWrapper.iriNew wb && IriWrapper.iriRefNew wr then
     let res := Rfc3986.resolve b.toList r.toList
+    -- `valid`: the implementation's result must be an accepted absolute IRI.  `res_is_rfc_iri`
+    -- (model only, informational): is the RFC result itself an IRI?  It is NOT always: §5.2.4 can
+    -- leave a path beginning with "//" on an authority-less base (`x:a` + `a/..//b:c//` gives
+    -- `x://b:c//`, whose "authority" `b:c` has a non-numeric port).  No implementation can satisfy
+    -- both halves of the clause there, so nothing is demanded of that flag.
     reply [kv "skip" "0", kv "o.res" (hexOfChars res), kv "o.valid" "1", kv "o.paths_agree" "1",
            kv "ox.res" (hexOfOptStr (OxiriResolve.resolve b.toList r.toList)),
            kvB "res_is_rfc_iri" (rfcAbs (res.map Char.toNat))]
